@@ -171,11 +171,14 @@ fn oracle(c: &CurveCase, cv: &Curve, ps: &[f64], pos: &[Pos], dists: &[f64], nvf
     }
     let nan_path = path.iter().any(|p| p.x.is_nan() || p.y.is_nan());
     let osu_catmull = c.mode == 0 && has_type(&c.pts, 1);
-    let cls = if nan_path && osu_catmull { "D11" } else { "" };
+    // D14: non-finite vertices out of an ill-conditioned three-point perfect curve
+    let bad_arc = has_type(&c.pts, 4) && path.iter().any(|p| !p.x.is_finite() || !p.y.is_finite());
+    let cls = if bad_arc { "D14" } else if nan_path && osu_catmull { "D11" } else { "" };
     let mut fail = |out: &mut Out, det: String| {
-        if cls == "D11" {
-            out.count("oracle:D11");
-            if out.dist.get("oracle:D11").copied().unwrap_or(0) > 10 {
+        if !cls.is_empty() {
+            let key = format!("oracle:{}", cls);
+            out.count(&key);
+            if out.dist.get(&key).copied().unwrap_or(0) > 10 {
                 return;
             }
         }
